@@ -162,6 +162,8 @@ def check_placement(entries, allow_gaps=False, structured=True):
     # per action prefix (uuid, tuple(prefix)): list of (k, first_use_index, kind)
     used = {}
     status = {}  # (uuid, prefix) -> {"start": idx, "end": (idx, k)}
+    reserved = set()  # (uuid, level) with an explicit reservation event
+    remote_roots = set()  # (uuid, level) of eliot:remote_task actions (preserve_context reserves invisibly)
     last_below = {}  # (uuid, prefix) -> idx of last entry at or below that prefix
     for idx, e in enumerate(entries):
         if e[0] == "msg":
@@ -178,9 +180,12 @@ def check_placement(entries, allow_gaps=False, structured=True):
             kind = "msg"
             if "action_type" in m:
                 kind = "start" if m["action_status"] == "started" else "end"
+            if m.get("action_type") == "eliot:remote_task" and kind == "start":
+                remote_roots.add((uuid, lvl[:-1]))
         else:
             uuid, lvl = e[1], tuple(e[2])
             kind = "reserve"
+            reserved.add((uuid, lvl))
         # register the position at every ancestor prefix: first use of (prefix, k)
         for d in range(len(lvl)):
             prefix = lvl[:d]
@@ -202,10 +207,11 @@ def check_placement(entries, allow_gaps=False, structured=True):
         is_action = bool(st) or len(prefix) > 0
         if not allow_gaps and ks != list(range(1, n + 1)):
             out.append("positions inside %s are %s, not 1..%d" % (name, ks, n))
-        # first uses in increasing order of k
-        order = [u[k] for k in ks]
+        # first uses in increasing order of k; a position reserved invisibly (preserve_context gives the caller no id to
+        # observe) is first *seen* when the other thread starts, so it is left out of the order comparison
+        order = [u[k] for k in ks if not ((uuid, prefix + (k,)) in remote_roots and (uuid, prefix + (k,)) not in reserved)]
         if order != sorted(order):
-            out.append("positions inside %s were first used out of order: %s" % (name, list(zip(ks, order))))
+            out.append("positions inside %s were first used out of order: %s" % (name, [(k, u[k]) for k in ks]))
         if is_action and not (len(prefix) == 0 and not st and ks == [1]):
             if "start" in st:
                 if st["start"][1] != 1:
